@@ -1,14 +1,16 @@
 (* Theorems about the SHARED REFERENCE models (the mathematical objects libpoly's results are compared with).
    Statements only; proofs in ScalarProofs.v, UPolySpec.v, RefAlgSpec.v, RefAlgLoops.v, RefAlgOps.v.  The per-property files
    (Properties_C01 .. C20) contain further theorems about the reference functions they use
-   (MPolySpec.v for MPoly, RootIsoProofs.v for the Sturm count, SylvesterProofs.v for resultants, ...). *)
+   (MPolySpec.v for MPoly, RootIsoProofs.v for the Sturm count, SylvesterProofs.v for resultants, ...).
+   Arithmetic of the reference algebraic numbers: RefAlgDet.v (Bareiss determinant), RefAlgAnn.v (resultant and
+   annihilating polynomials), RefAlgArith.v (rn_add / rn_sub / rn_mul ... by denotation). *)
 From Coq Require Import ZArith.
 From LP Require Import Scalar UPoly RefAlg.
 Set Warnings "-notation-overridden,-ambiguous-paths".
 From mathcomp Require Import all_ssreflect all_algebra all_real_closed.
 From mathcomp Require Import ssrZ.
 Set Warnings "notation-overridden,ambiguous-paths".
-From LP Require Import UPolySpec RefAlgSpec RefAlgLoops RefAlgOps.
+From LP Require Import UPolySpec RefAlgSpec RefAlgLoops RefAlgOps RefAlgDet RefAlgAnn RefAlgArith.
 Import GRing.Theory Num.Theory.
 Local Open Scope ring_scope.
 
@@ -96,3 +98,87 @@ Print Assumptions Base_rn_is_integer.
 Theorem Base_rn_neg : forall (R : rcfType) (x : rnum) (v : R), rn_denotes x v -> rn_denotes (rn_neg x) (- v).
 Proof. exact: rn_neg_spec. Qed.
 Print Assumptions Base_rn_neg.
+
+(* ---------------------------------------------------------------- arithmetic of the reference algebraic numbers *)
+
+(* G1: the fraction-free (Bareiss) determinant with row pivoting and exact divisions by the previous pivot, on a square
+   matrix of list polynomials, is the determinant over Z[z] *)
+Theorem Base_pdet_fast_det : forall (n : nat) (m : seq (seq (seq Z))),
+  size m = n -> all (fun r : seq (seq Z) => size r == n) m ->
+  Poly (pdet_fast m) = \det (\matrix_(i < n, j < n) (Poly (nth [::] (nth [::] m i) j) : {poly Z})).
+Proof. exact: pdet_fast_det. Qed.
+Print Assumptions Base_pdet_fast_det.
+
+(* G2: the reference resultant in t of two bivariate polynomials (coefficient lists in t, LOW degree first, leading
+   coefficients non-zero, coefficients list polynomials in z) is MathComp's resultant up to the sign (-1)^(deg a * deg b)
+   (RefAlg.sylvester lists the rows HIGH degree first = the classical Sylvester matrix; MathComp's lists them low
+   degree first).  BP l = Poly (map Poly l) : {poly {poly Z}} *)
+Theorem Base_bires_resultant : forall a b : seq (seq Z),
+  Poly (last [::] a) != 0 :> {poly Z} -> Poly (last [::] b) != 0 :> {poly Z} ->
+  Poly (bires a b) = (-1) ^+ ((size a).-1 * (size b).-1) * resultant (BP a) (BP b).
+Proof. exact: bires_resultant. Qed.
+Print Assumptions Base_bires_resultant.
+
+(* G3: annihilating polynomials: non-zero, and vanish at the sum / product / power of roots, in every real closed field *)
+Theorem Base_ann_add_neq0 : forall p q : seq Z,
+  Poly p != 0 :> {poly Z} -> Poly q != 0 :> {poly Z} -> Poly (ann_add p q) != 0 :> {poly Z}.
+Proof. exact: ann_add_neq0. Qed.
+Print Assumptions Base_ann_add_neq0.
+
+Theorem Base_ann_add_root : forall (R : rcfType) (p q : seq Z) (a b : R),
+  Poly p != 0 :> {poly Z} -> Poly q != 0 :> {poly Z} ->
+  root (pr p) a -> root (pr q) b -> root (pr (ann_add p q)) (a + b).
+Proof. exact: ann_add_root. Qed.
+Print Assumptions Base_ann_add_root.
+
+Theorem Base_ann_mul_neq0 : forall p q : seq Z,
+  Poly p != 0 :> {poly Z} -> Poly q != 0 :> {poly Z} -> Poly (ann_mul p q) != 0 :> {poly Z}.
+Proof. exact: ann_mul_neq0. Qed.
+Print Assumptions Base_ann_mul_neq0.
+
+(* extra hypothesis b <> 0 (see RefAlgAnn.ann_mul_root): rn_mul never multiplies by zero through ann_mul *)
+Theorem Base_ann_mul_root : forall (R : rcfType) (p q : seq Z) (a b : R),
+  Poly p != 0 :> {poly Z} -> Poly q != 0 :> {poly Z} -> b != 0 ->
+  root (pr p) a -> root (pr q) b -> root (pr (ann_mul p q)) (a * b).
+Proof. exact: ann_mul_root. Qed.
+Print Assumptions Base_ann_mul_root.
+
+Theorem Base_ann_pow_neq0 : forall (p : seq Z) (n : nat),
+  Poly p != 0 :> {poly Z} -> (0 < n)%N -> Poly (ann_pow p n) != 0 :> {poly Z}.
+Proof. exact: ann_pow_neq0. Qed.
+Print Assumptions Base_ann_pow_neq0.
+
+Theorem Base_ann_pow_root : forall (R : rcfType) (p : seq Z) (n : nat) (a : R),
+  Poly p != 0 :> {poly Z} -> (0 < n)%N -> root (pr p) a -> root (pr (ann_pow p n)) (a ^+ n).
+Proof. exact: ann_pow_root. Qed.
+Print Assumptions Base_ann_pow_root.
+
+(* G4: the operations, COND on two named premises about the real closed field R at hand:
+     count_open_correct_premise R : for square-free non-zero r and rationals l < h with r(l) <> 0 <> r(h),
+                                    count_open r l h = size (roots (pr r) (qr l) (qr h))   (interval Sturm count, C06)
+     psqfree_correct_premise R    : for p <> 0, psqfree p is non-zero, coprime with its derivative over R, and has the
+                                    same roots in R as p *)
+Theorem Base_rn_select_cond : forall (R : rcfType), count_open_correct_premise R ->
+  forall (fuel : nat) (r : seq Z) encl (x y z : rnum) (a b v : R),
+  Poly r != 0 :> {poly Z} -> coprimep (@pr R r) (@pr R r)^`() -> root (pr r) v -> encl_ok encl a b v ->
+  rn_denotes x a -> rn_denotes y b -> rn_select fuel r encl x y = Some z -> rn_denotes z v.
+Proof. exact: rn_select_spec_cond. Qed.
+Print Assumptions Base_rn_select_cond.
+
+Theorem Base_rn_add_cond : forall (R : rcfType), count_open_correct_premise R -> psqfree_correct_premise R ->
+  forall (fuel : nat) (x y z : rnum) (a b : R),
+  rn_denotes x a -> rn_denotes y b -> rn_add fuel x y = Some z -> rn_denotes z (a + b).
+Proof. exact: rn_add_spec_cond. Qed.
+Print Assumptions Base_rn_add_cond.
+
+Theorem Base_rn_sub_cond : forall (R : rcfType), count_open_correct_premise R -> psqfree_correct_premise R ->
+  forall (fuel : nat) (x y z : rnum) (a b : R),
+  rn_denotes x a -> rn_denotes y b -> rn_sub fuel x y = Some z -> rn_denotes z (a - b).
+Proof. exact: rn_sub_spec_cond. Qed.
+Print Assumptions Base_rn_sub_cond.
+
+Theorem Base_rn_mul_cond : forall (R : rcfType), count_open_correct_premise R -> psqfree_correct_premise R ->
+  forall (fuel : nat) (x y z : rnum) (a b : R),
+  rn_denotes x a -> rn_denotes y b -> rn_mul fuel x y = Some z -> rn_denotes z (a * b).
+Proof. exact: rn_mul_spec_cond. Qed.
+Print Assumptions Base_rn_mul_cond.
